@@ -35,7 +35,19 @@ type Facts struct {
 	Barrier    []int                  `json:"barrier"`
 	RandErr    []RandErrSite          `json:"rand_err"`
 	FloatSums  []FloatSum             `json:"float_sums"`
+	MapOrder   []MapOrderSite         `json:"map_order"`
 	Extra      map[string]interface{} `json:"extra"`
+}
+
+// MapOrderSite: a slice filled in map iteration order in a consensus function.
+type MapOrderSite struct {
+	Func    string `json:"func"`
+	Node    int    `json:"node"`
+	At      string `json:"at"`
+	RangeAt string `json:"range_at"`
+	Verdict string `json:"verdict"`
+	Use     string `json:"use,omitempty"`
+	Why     string `json:"why,omitempty"`
 }
 
 // FloatSum: a float64 running sum in a consensus function that ranges over a map.
